@@ -1,11 +1,23 @@
-"""C05 — the reader is a faithful cursor. Model: Gen/GenCursor.v (translated read_points/seek) in Model/Cursor.v.
-Correspondence: random histories on real files, records compared byte-wise with the model's slices.
-Search: the abstract cursor of the property, restated in Python, against the implementation."""
+"""C05 — the reader is a faithful cursor. Model: Gen/GenCursor.v (translated read_points/seek) in Model/Cursor.v and, at byte
+level, Model/CursorBytes.v (the point source is the file's byte stream, addressed with a stride).
+The file's full point array is computed INDEPENDENTLY of laspy from the raw bytes: offset, record length and count are parsed
+from the header bytes with struct; the array is the `count` records of `record length` bytes from `offset` on. Files: written by
+laspy (every version/format, extra dimensions) and files laspy did not write (extra bytes without ExtraBytes VLR, a VLR that
+documents fewer bytes than the records carry, a VLR although the records carry none, bytes after the last record, a gap before
+the EVLRs). Correspondence: the reader's stride / offset / count vs dec_header of Model/Las.v; the bytes returned by every call
+vs the byte ranges of brun. Search: the abstract cursor of the property, restated in Python, against the implementation."""
 import io
+import logging
+import os
+import struct
+import tempfile
 
 from harness import common, lasio
 
-ASSUMPTIONS = ["uncompressed files; the point source is a seekable BytesIO holding a complete file"]
+DRIVER = "c05"
+ASSUMPTIONS = ["uncompressed files; the point source holds a complete file (BytesIO, a stream without readinto, a file on disk)"]
+
+SOURCES = ["bytesio", "bytesio", "ctor", "noreadinto", "file"]
 
 
 def gen_history(rng, n):
@@ -34,38 +46,163 @@ def op_tok(op):
     return "A"
 
 
-def run_impl(raw, ops, psize, read_evlrs=True):
-    """returns list of outputs: ('s', bytes) | ('k', idx) | ('e', kind). The records returned by EVERY call are kept alive and
-    looked at again after the whole history (a later read must not overwrite an earlier result)."""
+def parse_ops(toks):
+    ops = []
+    for t in toks:
+        if t[0] == "S":
+            p, w = t[1:].split(":")
+            ops.append(("S", int(p), int(w)))
+        elif t[0] in "RN":
+            ops.append((t[0], int(t[1:])))
+        else:
+            ops.append(("A",))
+    return ops
+
+
+# ---------------------------------------------------------------------------------
+# the file seen without laspy
+# ---------------------------------------------------------------------------------
+def layout_of(raw):
+    """(version minor, offset to point data, record length, point count) parsed from the header bytes"""
+    minor = raw[25]
+    off = struct.unpack_from("<I", raw, 96)[0]
+    L = struct.unpack_from("<H", raw, 105)[0]
+    n = struct.unpack_from("<Q", raw, 247)[0] if minor >= 4 else struct.unpack_from("<I", raw, 107)[0]
+    return minor, off, L, n
+
+
+def point_array(raw):
+    """the file's full point array: n records of L bytes from the announced offset on"""
+    _, off, L, n = layout_of(raw)
+    return raw[off:off + n * L]
+
+
+def vlr_positions(raw):
+    """byte positions of the VLR headers"""
+    pos = struct.unpack_from("<H", raw, 94)[0]
+    out = []
+    for _ in range(struct.unpack_from("<I", raw, 100)[0]):
+        out.append(pos)
+        pos += 54 + struct.unpack_from("<H", raw, pos + 20)[0]
+    return out
+
+
+def restride(raw, delta, rng):
+    """the same file with every point record lengthened by `delta` bytes of undocumented extra data (delta > 0) or cut by
+    -delta bytes (delta < 0); record length and, in a 1.4 file, the EVLR pointer are adjusted. Pure byte surgery."""
+    minor, off, L, n = layout_of(raw)
+    out = bytearray(raw[:off])
+    for i in range(n):
+        rec = raw[off + i * L: off + (i + 1) * L]
+        out += (rec + bytes(rng.randrange(1, 256) for _ in range(delta))) if delta >= 0 else rec[:L + delta]
+    out += raw[off + n * L:]
+    struct.pack_into("<H", out, 105, L + delta)
+    if minor >= 4:
+        st = struct.unpack_from("<Q", out, 235)[0]
+        if st:
+            struct.pack_into("<Q", out, 235, st + n * delta)
+    return bytes(out)
+
+
+def disguise_eb_vlr(raw):
+    """the ExtraBytes VLR gets another record id: the file then has extra bytes and NO ExtraBytes VLR"""
+    out = bytearray(raw)
+    for p in vlr_positions(raw):
+        if bytes(out[p + 2:p + 18]).rstrip(b"\0") == b"LASF_Spec" and struct.unpack_from("<H", out, p + 18)[0] == 4:
+            struct.pack_into("<H", out, p + 18, 7)
+    return bytes(out)
+
+
+def documented_extra(h):
+    return h.point_format.num_extra_bytes
+
+
+# ---------------------------------------------------------------------------------
+# implementation runner
+# ---------------------------------------------------------------------------------
+class NoReadinto:
+    """a seekable binary stream offering read / seek / tell only (no readinto)"""
+
+    def __init__(self, raw):
+        self._b = io.BytesIO(raw)
+
+    def read(self, n=-1):
+        return self._b.read(n)
+
+    def seek(self, pos, whence=0):
+        return self._b.seek(pos, whence)
+
+    def tell(self):
+        return self._b.tell()
+
+    def seekable(self):
+        return True
+
+    def readable(self):
+        return True
+
+    def close(self):
+        self._b.close()
+
+
+def open_reader(raw, source, read_evlrs, tmp):
     import laspy
-    outs = []
-    iters = {}
-    kept = []
-    with laspy.open(io.BytesIO(raw), read_evlrs=read_evlrs) as rd:
-        for op in ops:
+    if source == "ctor":
+        return laspy.LasReader(io.BytesIO(raw), read_evlrs=read_evlrs)
+    if source == "noreadinto":
+        return laspy.open(NoReadinto(raw), read_evlrs=read_evlrs)
+    if source == "file":
+        fd, path = tempfile.mkstemp(suffix=".las", dir="/var/tmp")
+        with os.fdopen(fd, "wb") as f:
+            f.write(raw)
+        tmp.append(path)
+        return laspy.open(path, read_evlrs=read_evlrs)
+    return laspy.open(io.BytesIO(raw), read_evlrs=read_evlrs)
+
+
+def run_impl(raw, ops, source="bytesio", read_evlrs=True, npints=False):
+    """returns (outputs, facts): outputs = ('s', bytes, number of records) | ('k', idx) | ('e', kind); facts = what the reader
+    says about the file. The records returned by EVERY call are kept alive and looked at again after the whole history (a later
+    read must not overwrite an earlier result)."""
+    import numpy as np
+    wrap = (lambda v: np.int64(v)) if npints else (lambda v: v)
+    outs, iters, kept, tmp = [], {}, [], []
+    logging.disable(logging.CRITICAL)
+    try:
+        with open_reader(raw, source, read_evlrs, tmp) as rd:
+            facts = {"stride": int(rd.header.point_format.size), "offset": int(rd.header.offset_to_point_data), "count": int(rd.header.point_count)}
+            for op in ops:
+                try:
+                    if op[0] == "R":
+                        r = rd.read_points(wrap(op[1]))
+                        kept.append((len(outs), r))
+                        outs.append(("s", bytes(r.memoryview()), len(r)))
+                    elif op[0] == "N":
+                        it = iters.get(op[1])
+                        if it is None:
+                            it = iters[op[1]] = rd.chunk_iterator(wrap(op[1]))
+                        r = next(it)
+                        kept.append((len(outs), r))
+                        outs.append(("s", bytes(r.memoryview()), len(r)))
+                    elif op[0] == "S":
+                        outs.append(("k", int(rd.seek(wrap(op[1]), op[2]))))
+                    else:
+                        p = rd.read().points
+                        outs.append(("s", bytes(p.memoryview()), len(p)))
+                except Exception as ex:  # noqa
+                    outs.append(("e", common.exc_kind(ex)))
+            for i, r in kept:
+                now = bytes(r.memoryview())
+                if now != outs[i][1]:
+                    outs[i] = ("s", now + b"<changed-after-later-reads>", outs[i][2])
+    finally:
+        logging.disable(logging.NOTSET)
+        for p in tmp:
             try:
-                if op[0] == "R":
-                    r = rd.read_points(op[1])
-                    kept.append((len(outs), r))
-                    outs.append(("s", bytes(r.memoryview())))
-                elif op[0] == "N":
-                    it = iters.get(op[1])
-                    if it is None:
-                        it = iters[op[1]] = rd.chunk_iterator(op[1])
-                    r = next(it)
-                    kept.append((len(outs), r))
-                    outs.append(("s", bytes(r.memoryview())))
-                elif op[0] == "S":
-                    outs.append(("k", rd.seek(op[1], op[2])))
-                else:
-                    outs.append(("s", bytes(rd.read().points.memoryview())))
-            except Exception as ex:  # noqa
-                outs.append(("e", common.exc_kind(ex)))
-        for i, r in kept:
-            now = bytes(r.memoryview())
-            if now != outs[i][1]:
-                outs[i] = ("s", now + b"<changed-after-later-reads>")
-    return outs
+                os.remove(p)
+            except OSError:
+                pass
+    return outs, facts
 
 
 def spec_py(n, ops):
@@ -96,6 +233,9 @@ def spec_py(n, ops):
     return outs
 
 
+# ---------------------------------------------------------------------------------
+# files
+# ---------------------------------------------------------------------------------
 def empty_laz_flagged(rng):
     """a 0-point LAS 1.4 file whose point-format byte carries the compressed bit and which holds a LasZip record and an EVLR:
     laspy uses its null reader for it (no LAZ backend is needed), so every read returns an empty record"""
@@ -108,33 +248,100 @@ def empty_laz_flagged(rng):
     return bytes(raw), h
 
 
-def make_files(ctx):
+def base_file(rng, version, fmt, n, dims):
+    """a file written by laspy: `dims` documented extra dimensions, n random records, EVLRs in some 1.4 files"""
     import laspy
+    h = lasio.rand_header(rng, version=version, fmt=fmt)
+    if dims:
+        lasio.add_extra_dims(rng, h, dims)
+    pts = lasio.rand_points(rng, h, n, pattern="random")
+    evl = []
+    if version == "1.4" and rng.random() < 0.6:
+        evl = laspy.vlrs.vlrlist.VLRList([lasio.rand_vlr(rng) for _ in range(rng.choice([1, 2]))])
+    return lasio.write_las(h, pts, evl), h, len(evl)
+
+
+def make_files(ctx):
+    """list of (raw, label, histories per file weight). Every label names how the record length relates to the format."""
     files = []
     rng = ctx.rng
     for _ in range(2):
         raw, h = empty_laz_flagged(rng)
-        files.append((raw, 0, h.point_format.size, b"", "1.4/empty-file-flagged-compressed/evlrs1"))
-    for version in lasio.VERSIONS:
-        for fmt in lasio.COMPAT[version]:
-            if not ctx.thorough() and rng.random() < 0.55:
-                continue
-            for n in ([0, 1, 23] if not ctx.thorough() else [0, 1, 2, 23, 64]):
-                h = lasio.rand_header(rng, version=version, fmt=fmt)
-                pts = lasio.rand_points(rng, h, n, pattern="random")
-                evl = []
-                if version == "1.4" and rng.random() < 0.6:
-                    evl = laspy.vlrs.vlrlist.VLRList([lasio.rand_vlr(rng) for _ in range(rng.choice([1, 2]))])
-                raw = lasio.write_las(h, pts, evl)
-                files.append((raw, n, h.point_format.size, bytes(pts.memoryview()), f"{version}/fmt{fmt}/n{n}/evlrs{len(evl)}"))
+        files.append((raw, "1.4/empty-file-flagged-compressed/evlrs1", 1.0))
+    pairs = [(v, f) for v in lasio.VERSIONS for f in lasio.COMPAT[v]]
+    # written by laspy, no extra bytes
+    for version, fmt in pairs:
+        if not ctx.thorough() and rng.random() < 0.6:
+            continue
+        for n in ([0, 1, 23] if not ctx.thorough() else [0, 1, 2, 23, 64]):
+            raw, h, ne = base_file(rng, version, fmt, n, 0)
+            files.append((raw, f"{version}/fmt{fmt}/n{n}/evlrs{ne}/standard-size", 1.0))
+    # record length larger than the format's standard size, in every version / format:
+    #   exact   the ExtraBytes VLR documents exactly all extra bytes (what laspy writes)
+    #   fewer   the VLR documents a dimension, the records carry more bytes after it
+    #   novlr   extra bytes and no ExtraBytes VLR at all
+    #   hidden  documented dimensions whose VLR is not recognisable (another record id), plus undocumented bytes
+    #   ignored an ExtraBytes VLR although the records have the standard size
+    kinds = ["exact", "fewer", "fewer", "novlr", "hidden", "ignored"]
+    for version, fmt in pairs:
+        for kind in (kinds if ctx.thorough() else [rng.choice(kinds), "fewer", rng.choice(["novlr", "hidden", "ignored", "exact"])]):
+            n = rng.choice([1, 2, 7, 23]) if rng.random() < 0.85 else 0
+            dims = 0 if kind == "novlr" else rng.choice([1, 1, 2, 3])
+            raw, h, ne = base_file(rng, version, fmt, n, dims)
+            doc = documented_extra(h)
+            if kind in ("fewer", "novlr"):
+                raw = restride(raw, rng.choice([1, 1, 2, 3, 8, 40]), rng)
+            elif kind == "hidden":
+                raw = restride(disguise_eb_vlr(raw), rng.choice([0, 1, 5]), rng)
+            elif kind == "ignored":
+                raw = restride(raw, -doc, rng)
+            L = layout_of(raw)[2]
+            files.append((raw, f"{version}/fmt{fmt}/n{n}/evlrs{ne}/extra-bytes-{kind}/record{L}=std{h.point_format.size - doc}+documented{0 if kind in ('hidden', 'ignored') else doc}", 0.5))
+    # bytes after the last record that are not EVLRs (the header's count, not the size of the file, bounds the cursor)
+    for version, fmt in ([rng.choice(pairs) for _ in range(4)] if not ctx.thorough() else pairs):
+        n = rng.choice([0, 1, 5])
+        raw, h, ne = base_file(rng, version, fmt, n, rng.choice([0, 0, 1]))
+        if ne == 0:
+            L = layout_of(raw)[2]
+            raw = raw + bytes(rng.randrange(256) for _ in range(rng.choice([1, L - 1, L, 3 * L + 2])))
+            files.append((raw, f"{version}/fmt{fmt}/n{n}/trailing-bytes", 0.5))
+        else:
+            g = lasio.with_gap(raw, rng.choice([1, 7, 64]))
+            if g is not None:
+                files.append((g, f"{version}/fmt{fmt}/n{n}/evlrs{ne}/gap-before-evlrs", 0.5))
     return files
 
 
-def compare(expected, got, allpts, psize):
-    """expected: list of ('s', a, b) | ('k', i) | ('e', kind); got: impl outputs. Returns index of first mismatch or None"""
+def histories(ctx):
+    files = make_files(ctx)
+    per = ctx.n(40, 300)
+    cases = []
+    for raw, label, weight in files:
+        n = layout_of(raw)[3]
+        for k in range(max(3, int(per * weight))):
+            mode = {"source": ctx.rng.choice(SOURCES),
+                    # EVLRs loaded at opening or deferred to read(): the cursor behaves the same
+                    "read_evlrs": bool(k % 3),
+                    # numpy integers as counts / positions
+                    "npints": ctx.rng.random() < 0.15}
+            cases.append((raw, label, mode, gen_history(ctx.rng, n)))
+    return cases
+
+
+def mode_tok(mode):
+    return f"{mode['source']}|{'evlrs-at-open' if mode['read_evlrs'] else 'evlrs-deferred'}{'|numpy-ints' if mode['npints'] else ''}"
+
+
+# ---------------------------------------------------------------------------------
+# comparison
+# ---------------------------------------------------------------------------------
+def compare(expected, got, raw):
+    """expected: list of ('s', a, b) | ('k', i) | ('e', kind) in RECORDS of the file's own point array; got: impl outputs.
+    Returns index of first mismatch or None"""
+    _, off, L, n = layout_of(raw)
     for i, (e, g) in enumerate(zip(expected, got)):
         if e[0] == "s":
-            if g[0] != "s" or g[1] != allpts[e[1] * psize:e[2] * psize]:
+            if g[0] != "s" or g[1] != raw[off + e[1] * L:off + e[2] * L] or g[2] != e[2] - e[1]:
                 return i
         elif e[0] == "k":
             if g != ("k", e[1]):
@@ -148,9 +355,9 @@ def compare(expected, got, allpts, psize):
 def parse_model(line):
     outs = []
     for t in line.split():
-        if t[0] == "s":
+        if t[0] == "b":
             a, b = t[1:].split(":")
-            outs.append(("s", int(a), int(b)))
+            outs.append(("b", int(a), int(b)))
         elif t[0] == "k":
             outs.append(("k", int(t[1:])))
         else:
@@ -158,15 +365,22 @@ def parse_model(line):
     return outs
 
 
-def histories(ctx):
-    files = make_files(ctx)
-    per = ctx.n(40, 300)
-    cases = []
-    for raw, n, ps, allpts, label in files:
-        for k in range(per):
-            # EVLRs loaded at opening or deferred to read(): the cursor behaves the same
-            cases.append((raw, n, ps, allpts, label + ("|evlrs-at-open" if k % 3 else "|evlrs-deferred"), gen_history(ctx.rng, n)))
-    return cases
+def compare_bytes(model, got, raw):
+    for i, (m, g) in enumerate(zip(model, got)):
+        if m[0] == "b":
+            if g[0] != "s" or g[1] != raw[m[1]:m[2]]:
+                return i
+        elif m[0] == "k":
+            if g != ("k", m[1]):
+                return i
+        else:
+            if g != ("e", m[1]):
+                return i
+    return None
+
+
+def got_short(g, L):
+    return (g[0], f"{g[2]} records, {len(g[1])} bytes ({len(g[1]) / L if L else 0:g} file records)") if g[0] == "s" else g
 
 
 _CASES = None
@@ -175,31 +389,72 @@ _CASES = None
 def correspond(ctx):
     global _CASES
     ctx.extra["rule"] = ("random histories (1..24 ops) over {read_points(n), seek(pos, whence), next(chunk_iterator(k)) on iterators kept "
-                         "alive across ops, read()} with n/pos drawn around 0, +-1, count, count+-1, huge; files of every "
-                         "(version, format) x counts {0,1,23,..} with/without trailing EVLRs. non-trivial = the history has a seek or "
-                         "an exhausted read; distinct by (file label, history)")
+                         "alive across ops, read()} with n/pos drawn around 0, +-1, count, count+-1, huge, as Python or numpy integers; files of every "
+                         "(version, format) x counts {0,1,23,..} with/without trailing EVLRs, written by laspy or not: record length = standard size, "
+                         "+ extra bytes documented exactly / partly / not at all by an ExtraBytes VLR, a VLR although the records carry none, bytes "
+                         "after the last record, a gap before the EVLRs; opened through laspy.open(BytesIO | stream without readinto | path) and "
+                         "LasReader(). The expected records are slices of the point array cut from the raw bytes with the header's own offset / "
+                         "record length / count. non-trivial = the history has a seek or an exhausted read; distinct by (file label, mode, history)")
     _CASES = histories(ctx)
-    cmds = [f"crun {n} " + " ".join(op_tok(o) for o in ops) for (_, n, _, _, _, ops) in _CASES]
-    outs = common.run_model(cmds)
+    # what the header model says about each file: count, record length (= the stride a faithful reader uses), offset
+    files = {}
+    for raw, label, _, _ in _CASES:
+        files.setdefault(id(raw), (raw, label))
+    hdr = common.run_model([f"dec_header {common.hexb(raw[:layout_of(raw)[1]])} F" for raw, _ in files.values()])
     dis = []
-    for (raw, n, ps, allpts, label, ops), line in zip(_CASES, outs):
+    view = {}
+    for (key, (raw, label)), line in zip(files.items(), hdr):
+        t = line.split(" ")
+        minor, off, L, n = layout_of(raw)
+        if t[0] != "ok":
+            dis.append({"kind": "header of a generated file", "input": {"file": label}, "model": line[:80], "impl": "generated as readable"})
+            continue
+        mn = lasio.parse_assoc(t[1]).get("point_count", 0)
+        view[key] = (int(t[7]), int(t[6]), mn)
+        if (int(t[7]), int(t[6]), mn) != (off, L, n):
+            dis.append({"kind": "header of a generated file", "input": {"file": label}, "model": [int(t[7]), int(t[6]), mn], "impl": [off, L, n]})
+    cmds = []
+    for raw, label, mode, ops in _CASES:
+        off, L, n = view.get(id(raw), layout_of(raw)[1:])
+        cmds.append(f"brun {off} {L} {n} " + " ".join(op_tok(o) for o in ops))
+    outs = common.run_model(cmds, name=DRIVER)
+    for (raw, label, mode, ops), line in zip(_CASES, outs):
         model = parse_model(line)
-        impl = run_impl(raw, ops, ps, not label.endswith("deferred"))
+        off, L, n = view.get(id(raw), layout_of(raw)[1:])
+        try:
+            impl, facts = run_impl(raw, ops, **mode)
+        except Exception as ex:
+            dis.append({"kind": "file cannot be opened", "input": {"file": label, "mode": mode_tok(mode)}, "model": "ok", "impl": repr(ex)[:200]})
+            continue
         ctx.traces += 1
         nontriv = any(o[0] == "S" for o in ops)
-        ctx.case((label, tuple(ops)), nontrivial=nontriv, sample={"file": label, "ops": [op_tok(o) for o in ops], "model": line})
+        ctx.case((label, mode_tok(mode), tuple(ops)), nontrivial=nontriv, sample={"file": label, "mode": mode_tok(mode), "ops": [op_tok(o) for o in ops], "model": line})
         for o in ops:
             ctx.count("op:" + o[0])
+        ctx.count("source:" + mode["source"])
+        ctx.count("file:" + (label.split("/extra-bytes-")[1].split("/")[0] if "extra-bytes-" in label else label.split("/")[-1].split("-")[0] + "…"))
         for m in model:
             ctx.count("out:" + (m[1] if m[0] == "e" else m[0]))
-        bad = compare(model, impl, allpts, ps)
+        if (facts["stride"], facts["offset"], facts["count"]) != (L, off, n):
+            dis.append({"kind": "reader stride / offset / count", "input": {"file": label, "mode": mode_tok(mode)},
+                        "model": {"stride": L, "offset": off, "count": n}, "impl": facts})
+        bad = compare_bytes(model, impl, raw)
         if bad is not None:
-            dis.append({"kind": f"history op {op_tok(ops[bad])[0]}", "input": {"file": label, "ops": [op_tok(o) for o in ops], "at": bad},
-                        "model": model[bad], "impl": (impl[bad][0], impl[bad][1] if impl[bad][0] != "s" else len(impl[bad][1]) // ps)})
+            dis.append({"kind": f"history op {op_tok(ops[bad])[0]}", "input": {"file": label, "mode": mode_tok(mode), "ops": [op_tok(o) for o in ops], "at": bad},
+                        "model": model[bad], "impl": got_short(impl[bad], L)})
     return dis
 
 
-def shrink(raw, n, ps, allpts, ops, re=True):
+def fails(raw, ops, mode):
+    """index of the first operation that violates the oracle, or None; -1: the file cannot be opened"""
+    try:
+        got, _ = run_impl(raw, ops, **mode)
+    except Exception:
+        return -1, None
+    return compare(spec_py(layout_of(raw)[3], ops), got, raw), got
+
+
+def shrink(raw, ops, mode):
     """drop operations while the oracle still fails"""
     cur = list(ops)
     changed = True
@@ -207,59 +462,61 @@ def shrink(raw, n, ps, allpts, ops, re=True):
         changed = False
         for i in range(len(cur)):
             cand = cur[:i] + cur[i + 1:]
-            if cand and compare(spec_py(n, cand), run_impl(raw, cand, ps, re), allpts, ps) is not None:
+            if cand and fails(raw, cand, mode)[0] is not None:
                 cur = cand
                 changed = True
                 break
     return cur
 
 
+def file_class(label):
+    return label.split("/extra-bytes-")[1].split("/")[0] if "extra-bytes-" in label else label.split("/")[-1]
+
+
 def search(ctx, seeds):
     cases = _CASES if _CASES is not None else histories(ctx)
     failing = []
     seen = set()
-    for raw, n, ps, allpts, label, ops in cases:
-        exp = spec_py(n, ops)
-        re = not label.endswith("deferred")
-        got = run_impl(raw, ops, ps, re)
-        bad = compare(exp, got, allpts, ps)
-        if bad is not None:
-            small = shrink(raw, n, ps, allpts, ops, re)
-            b2 = compare(spec_py(n, small), run_impl(raw, small, ps, re), allpts, ps)
-            kind = f"cursor: {' '.join(op_tok(o)[0] for o in small)}"
-            if kind in seen:
-                continue
-            seen.add(kind)
-            failing.append({"kind": kind, "input": {"file": label, "points": n, "ops": [op_tok(o) for o in small], "file_hex": raw.hex()},
-                            "observed": f"op #{b2} expected {spec_py(n, small)[b2]} got {got_short(run_impl(raw, small, ps, re)[b2], ps)}"})
-            if len(failing) >= 5:
-                break
+    for raw, label, mode, ops in cases:
+        _, off, L, n = layout_of(raw)
+        bad, got = fails(raw, ops, mode)
+        if bad is None:
+            continue
+        if bad == -1:
+            kind = f"file cannot be opened: {file_class(label)}"
+            if kind not in seen:
+                seen.add(kind)
+                try:
+                    run_impl(raw, [], **mode)
+                    why = "?"
+                except Exception as ex:
+                    why = repr(ex)
+                failing.append({"kind": kind, "input": {"file": label, "mode": mode, "points": n, "record_length": L, "file_hex": raw.hex()}, "observed": why})
+            continue
+        small = shrink(raw, ops, mode)
+        b2, got2 = fails(raw, small, mode)
+        kind = f"cursor: {' '.join(op_tok(o)[0] for o in small)}" + (f" [{file_class(label)}]" if "standard-size" not in label else "")
+        if kind in seen:
+            continue
+        seen.add(kind)
+        exp = spec_py(n, small)[b2]
+        failing.append({"kind": kind, "input": {"file": label, "mode": mode, "points": n, "record_length": L, "offset_to_point_data": off,
+                                                "ops": [op_tok(o) for o in small], "file_hex": raw.hex()},
+                        "observed": f"op #{b2} {op_tok(small[b2])}: expected {exp}" +
+                                    (f" = bytes [{off + exp[1] * L}, {off + exp[2] * L}) of the file" if exp[0] == "s" else "") + f", got {got_short(got2[b2], L)}"})
+        if len(failing) >= 5:
+            break
     return failing
-
-
-def got_short(g, ps):
-    return (g[0], f"{len(g[1]) // ps} records") if g[0] == "s" else g
 
 
 def replay(ctx, data):
     inp = data.get("failing_input", {}).get("input")
-    if not inp:
+    if not inp or "file_hex" not in inp:
         print("nothing to replay")
         return 0
     raw = bytes.fromhex(inp["file_hex"])
-    ops = []
-    for t in inp["ops"]:
-        if t[0] == "S":
-            p, w = t[1:].split(":")
-            ops.append(("S", int(p), int(w)))
-        elif t[0] in "RN":
-            ops.append((t[0], int(t[1:])))
-        else:
-            ops.append(("A",))
-    import laspy
-    las = laspy.read(io.BytesIO(raw))
-    allpts = bytes(las.points.memoryview())
-    ps = las.header.point_format.size
-    bad = compare(spec_py(inp["points"], ops), run_impl(raw, ops, ps), allpts, ps)
+    ops = parse_ops(inp.get("ops", []))
+    mode = inp.get("mode") or {"source": "bytesio", "read_evlrs": True, "npints": False}
+    bad, _ = fails(raw, ops, mode)
     print("REPRODUCED at op", bad if bad is not None else "- not reproduced")
     return 1 if bad is not None else 0
